@@ -215,6 +215,10 @@ impl<'r> DocGen<'r> {
                     if self.decorate && self.rng.bool() {
                         header += &format!("deco = {}, ", self.decor());
                     }
+                    // A local of the function that is bound first thing in its body (decided here so
+                    // that a parameter default can mention the same name: defaults are evaluated in
+                    // the enclosing scope).
+                    let extra = NAMES[self.rng.usize(NAMES.len())].to_owned();
                     for i in 0..np {
                         let nm = NAMES[self.rng.usize(NAMES.len())].to_owned();
                         if params.contains(&nm) {
@@ -225,15 +229,31 @@ impl<'r> DocGen<'r> {
                             header += ", ";
                         }
                         let col = header.chars().count();
-                        header += &format!("{nm} = {t}");
                         self.bindings.push(Binding { name: nm.clone(), scope: fscope, line: self.lines.len(), col_chars: col, tag: t });
+                        // The default value may read the enclosing scope's variable of the same name as
+                        // the parameter, or of the same name as a local of the function.
+                        let outer = if visible.contains(&nm) && self.rng.bool() {
+                            Some(nm.clone())
+                        } else if visible.contains(&extra) && !params.contains(&extra) && extra != nm && self.rng.chance(1, 3) {
+                            Some(extra.clone())
+                        } else {
+                            None
+                        };
+                        match outer {
+                            Some(on) => {
+                                let id = self.uses.len();
+                                let pre = format!("{header}{nm} = [mark(\"u{id}\", {}, ", self.decor());
+                                self.uses.push(UseSite { id, name: on.clone(), line: self.lines.len(), col_chars: pre.chars().count() });
+                                header = format!("{pre}{on}), {t}][1]");
+                            }
+                            None => header += &format!("{nm} = {t}"),
+                        }
                         params.push(nm);
                     }
                     header += "):";
                     self.lines.push(header);
                     // extra local of the function, bound first thing
                     let mut flocal = params.clone();
-                    let extra = NAMES[self.rng.usize(NAMES.len())].to_owned();
                     if !flocal.contains(&extra) && self.rng.bool() {
                         self.bind_assign(indent + 4, &extra, fscope);
                         flocal.push(extra);
@@ -308,10 +328,21 @@ impl<'r> DocGen<'r> {
                     let id = self.uses.len();
                     let p1 = format!("{}(lambda ", " ".repeat(indent));
                     let bcol = p1.chars().count();
-                    let p2 = format!("{p1}{nm} = {t}: mark(\"u{id}\", {}, ", self.decor());
-                    let col = p2.chars().count();
-                    self.lines.push(format!("{p2}{nm}))()"));
-                    self.uses.push(UseSite { id, name: nm.clone(), line: self.lines.len() - 1, col_chars: col });
+                    if visible.contains(&nm) && self.rng.bool() {
+                        // default = [use of the enclosing `nm`, own tag][1]
+                        let pd = format!("{p1}{nm} = [mark(\"u{id}\", {}, ", self.decor());
+                        self.uses.push(UseSite { id, name: nm.clone(), line: self.lines.len(), col_chars: pd.chars().count() });
+                        let id2 = self.uses.len();
+                        let p2 = format!("{pd}{nm}), {t}][1]: mark(\"u{id2}\", {}, ", self.decor());
+                        let col = p2.chars().count();
+                        self.uses.push(UseSite { id: id2, name: nm.clone(), line: self.lines.len(), col_chars: col });
+                        self.lines.push(format!("{p2}{nm}))()"));
+                    } else {
+                        let p2 = format!("{p1}{nm} = {t}: mark(\"u{id}\", {}, ", self.decor());
+                        let col = p2.chars().count();
+                        self.lines.push(format!("{p2}{nm}))()"));
+                        self.uses.push(UseSite { id, name: nm.clone(), line: self.lines.len() - 1, col_chars: col });
+                    }
                     self.bindings.push(Binding { name: nm, scope: lscope, line: self.lines.len() - 1, col_chars: bcol, tag: t });
                 }
                 _ => {
@@ -962,10 +993,10 @@ impl World for C19 {
                 let line = rng.below(nl + 3);
                 let ch = match rng.below(4) {
                     0 => 0,
-                    1 => 100_000,
+                    1 | 2 => 100_000,
                     _ => rng.below(60),
                 };
-                let method = *rng.pick(&["textDocument/definition", "textDocument/hover", "textDocument/completion"]);
+                let method = *rng.pick(&["textDocument/definition", "textDocument/definition", "textDocument/hover", "textDocument/completion"]);
                 o.sim_time += 1;
                 o.bump("probe.requests_at_odd_positions", 1);
                 match cl.request(method, json!({"textDocument": {"uri": uri}, "position": {"line": line, "character": ch}})) {
@@ -975,6 +1006,30 @@ impl World for C19 {
                     Ok(resp) => {
                         if let Some(res) = resp.result {
                             check_ranges(&mut o, &format!("{method} at odd position {line}:{ch}"), &res, &uri, &model, &docs);
+                            // A column beyond the end of the line means the end of that line (LSP):
+                            // a definition answered there must be about the identifier that ends
+                            // the line, never about text of another line.
+                            if method == "textDocument/definition" && ch == 100_000 && (line as usize) < lines.len() {
+                                let lt = lines[line as usize];
+                                let trailing: String = lt.chars().rev().take_while(|c| c.is_alphanumeric() || *c == '_').collect::<String>().chars().rev().collect();
+                                let links: Vec<Json> = match &res {
+                                    Json::Array(a) => a.clone(),
+                                    Json::Null => vec![],
+                                    other => vec![other.clone()],
+                                };
+                                o.bump("probe.definition_requests_past_end_of_line", 1);
+                                if let Some(l0) = links.first() {
+                                    let origin = &l0["originSelectionRange"];
+                                    let oline = origin["start"]["line"].as_u64();
+                                    if trailing.is_empty() || oline.map(|x| x != line).unwrap_or(false) {
+                                        o.violate(
+                                            "definition-wrong",
+                                            "definition-past-eol",
+                                            format!("definition at {name}:{line}:{ch} (beyond the end of the line `{}`) answered {} - the line ends in `{trailing}`", kit::clip(lt), kit::clip(&l0.to_string())),
+                                        );
+                                    }
+                                }
+                            }
                         }
                     }
                 }
@@ -1045,6 +1100,46 @@ impl World for C19 {
                         Ok(d) => check_ranges(&mut o, "diagnostics after re-open", &d, &uri, &model, &docs),
                         Err(e) => bail!("lsp-protocol", "protocol", "{e}"),
                     }
+                }
+            }
+        }
+
+        // A document that never parsed: its diagnostics are published on open / change and must be
+        // cleared by didClose like anybody else's.
+        if o.violation.is_none() {
+            let uri = uri_of("never_valid.star");
+            let texts = ["def broken(:\n    pass\n", "x = (1,\ndef still_broken(:\n"];
+            let _ = cl.notify("textDocument/didOpen", json!({"textDocument": {"uri": uri, "languageId": "starlark", "version": 1, "text": texts[0]}}));
+            model.insert(uri.clone(), (Some(texts[0].to_owned()), None));
+            o.sim_time += 1;
+            match cl.wait_diagnostics(&uri) {
+                Ok(d) => {
+                    if d["diagnostics"].as_array().map(|a| a.is_empty()).unwrap_or(true) {
+                        bail!("diagnostics-missing", "diagnostics", "no diagnostic published for an unparsable document on didOpen");
+                    }
+                    check_ranges(&mut o, "diagnostics of a never-valid document", &d, &uri, &model, &docs);
+                }
+                Err(e) => bail!("lsp-protocol", "protocol", "{e}"),
+            }
+            if rng.bool() && o.violation.is_none() {
+                let _ = cl.notify("textDocument/didChange", json!({"textDocument": {"uri": uri, "version": 2}, "contentChanges": [{"text": texts[1]}]}));
+                model.insert(uri.clone(), (Some(texts[1].to_owned()), None));
+                match cl.wait_diagnostics(&uri) {
+                    Ok(d) => check_ranges(&mut o, "diagnostics of a never-valid document after a change", &d, &uri, &model, &docs),
+                    Err(e) => bail!("lsp-protocol", "protocol", "{e}"),
+                }
+            }
+            if o.violation.is_none() {
+                let _ = cl.notify("textDocument/didClose", json!({"textDocument": {"uri": uri}}));
+                model.insert(uri.clone(), (None, None));
+                o.bump("probe.never_valid_document_closed", 1);
+                match cl.wait_diagnostics(&uri) {
+                    Ok(d) => {
+                        if !d["diagnostics"].as_array().map(|a| a.is_empty()).unwrap_or(true) {
+                            bail!("diagnostics-after-close", "diagnostics", "diagnostics of a never-valid document not cleared by didClose");
+                        }
+                    }
+                    Err(e) => bail!("diagnostics-after-close", "diagnostics", "didClose of a document that never parsed: {e}"),
                 }
             }
         }
